@@ -337,3 +337,11 @@ PROPS["C13"] = dict(
     tests=[dict(name="TestVF_C13", env=dict(VERIF_CASE_LIMIT=120), quick=dict(checks=4000, shards=16, timeout=900), thorough=dict(checks=300000, shards=16, timeout=20000))],
 )
 PROPS["C13"]["yield"] = ["relay.go", "buffer.go"]
+
+PROPS["C06"]["bins"] = True
+PROPS["C06"]["tests"].append(dict(name="TestVF_C06Filter", env=dict(VERIF_CASE_LIMIT=120),
+                                  quick=dict(checks=160, shards=32, timeout=600), thorough=dict(checks=3000, shards=32, timeout=6000)))
+
+# native fuzz targets (thorough tier only; Go's fuzzer cannot be pinned to a seed, a saved crasher is the reproducible unit)
+for _pid in ["C03", "C04", "C06", "C15", "C16", "C20"]:
+    PROPS[_pid]["tests"].append(dict(name="FuzzVF_%s" % _pid, rapid=False, thorough=dict(shards=1, timeout=400, fuzz="90s", par=16)))
